@@ -14,8 +14,10 @@ from vlib import ROOT, REPO, sh, log
 # ------------------------------------------------------------------ hook-level cases
 
 SIZES = [0, 1, 5, 100, 4096]
-MTIMES = [None, 1000, 1001, 2000]
-CTIMES = [None, 500, 501, 502]
+S = 10 ** 9
+# time stamps in nanoseconds: whole seconds, the same second with a sub-second part (1 ns, 0.4 s, last ns), other seconds
+MTIMES = [None, 1000 * S, 1000 * S, 1000 * S + 1, 1000 * S + 400000000, 1000 * S + 999999999, 1001 * S, 2000 * S + 5]
+CTIMES = [None, 500 * S, 500 * S, 500 * S + 1, 500 * S + 400000000, 501 * S, 502 * S + 7]
 INODES = [0, 7, 8, 9]
 TYPES = [0, 0, 0, 0, 1, 1, 2, 2, 3, 4, 5, 6]
 
@@ -283,7 +285,10 @@ def gen_e2e(rng, n):
         popt = rng.choice([0, 0, 1, 2, 2, 3, 4, 5, 6, 7])
         x = rng.random()
         prune = 1 if x < 0.2 else 2 if x < 0.35 else 0
-        stealth = 1 if (popt in (3, 6, 7) and rng.random() < 0.7) or rng.random() < 0.1 else 0
+        # the edit that keeps size and mtime (only ctime tells): for EVERY option variant — inside the premise
+        # unless ctime is ignored; 2 = every second edit is of that kind
+        y = rng.random()
+        stealth = 2 if y < 0.3 else 1 if y < 0.6 else 0
         cases.append("%d %d %d %d" % (seed, popt, prune, stealth))
     return cases
 
@@ -337,6 +342,203 @@ def eval_e2e(line, out):
     return viol, mism, cls
 
 
+# ------------------------------------------------------------------ mem mode (in-memory sources)
+
+B0 = 1700000100 * S
+TPOOL = [None, B0, B0 + 1, B0 + 400000000, B0 + 999999999, B0 + S, B0 + 455 * S + 987654321]
+
+
+def mem_entry(rng, kind, name):
+    e = {"kind": kind, "name": name, "targ": rng.choice([0, 1]) if kind == 2 else 0,
+         "mt": rng.choice(TPOOL[1:]) if rng.random() < 0.93 else None,
+         "ct": rng.choice(TPOOL[1:]) if rng.random() < 0.9 else None,
+         "inode": rng.choice([0, 11, 12, 13]), "len": 0, "seed": 0, "children": None}
+    if kind == 0:
+        e["len"] = rng.choice([0, 1, 7, 7, 300, 9000]); e["seed"] = rng.randint(1, 1 << 30)
+    if kind == 1: e["children"] = {}
+    return e
+
+
+def mem_state0(rng):
+    def fill(d, depth):
+        for nm in rng.sample(range(12), rng.choice([1, 2, 3, 4, 6])):
+            k = rng.choice([0, 0, 0, 0, 1, 2]) if depth < 3 else rng.choice([0, 0, 2])
+            e = mem_entry(rng, k, nm)
+            d[nm] = e
+            if k == 1: fill(e["children"], depth + 1)
+    root = {}
+    fill(root, 1)
+    return root
+
+
+def mem_copy(d):
+    return {k: dict(v, children=mem_copy(v["children"]) if v["children"] is not None else None) for k, v in d.items()}
+
+
+def same_second_other(rng, t):
+    """another time stamp within the same second: whole -> sub-second, sub-second -> whole or another fraction"""
+    sec, ns = t // S, t % S
+    if ns == 0: return sec * S + rng.choice([1, 1000, 400000000, 999999999])
+    return sec * S + rng.choice([0, 0, (ns + 1) % S])
+
+
+def mem_edit(rng, d, log, focus):
+    """edit a state in place; `focus` raises the share of the metadata-only-visible content changes"""
+    for nm in list(d.keys()):
+        e = d[nm]
+        x = rng.random()
+        if e["kind"] == 1:
+            if x < 0.08: del d[nm]; log.add("remove-dir")
+            elif x < 0.14:
+                d[nm] = mem_entry(rng, rng.choice([0, 2]), nm); log.add("dir->file/symlink")
+            else:
+                if x < 0.3: e["mt"] = rng.choice(TPOOL); log.add("dir-mtime")
+                mem_edit(rng, e["children"], log, focus)
+            continue
+        if e["kind"] == 2:
+            if x < 0.1: e["targ"] = 1 - e["targ"]; log.add("retarget")
+            elif x < 0.15: d[nm] = mem_entry(rng, 0, nm); log.add("symlink->file")
+            continue
+        lim = 0.75 if focus else 0.45
+        if x > lim: continue                                  # unchanged
+        op = rng.choice(["size", "same+mtime", "same+mtime-samesec", "same+ctime", "same+ctime-samesec", "stealth", "ctime-none",
+                         "touch", "touch-samesec", "ctime-only", "inode", "inode0", "type", "remove"]
+                        + (["same+ctime", "same+ctime-samesec", "same+mtime-samesec"] * 2 if focus else []))
+        log.add(op)
+        newdata = lambda: e.update(seed=rng.randint(1, 1 << 30))
+        if op == "size":
+            e["len"] = e["len"] + rng.choice([1, 5, 100]); newdata(); e["mt"] = rng.choice(TPOOL[1:])
+        elif op == "same+mtime":
+            newdata(); e["mt"] = (e["mt"] or B0) + rng.choice([S, 3 * S + 17])
+        elif op == "same+mtime-samesec":
+            newdata(); e["mt"] = same_second_other(rng, e["mt"] if e["mt"] is not None else B0)
+        elif op == "same+ctime":
+            newdata(); e["ct"] = (e["ct"] or B0) + rng.choice([S, 455 * S + 987654321])
+        elif op == "same+ctime-samesec":
+            newdata(); e["ct"] = same_second_other(rng, e["ct"] if e["ct"] is not None else B0)
+        elif op == "stealth":
+            newdata()
+        elif op == "ctime-none":
+            newdata(); e["ct"] = None
+        elif op == "touch":
+            e["mt"] = (e["mt"] or B0) + S
+        elif op == "touch-samesec":
+            e["mt"] = same_second_other(rng, e["mt"] if e["mt"] is not None else B0)
+        elif op == "ctime-only":
+            e["ct"] = (e["ct"] or B0) + 7
+        elif op == "inode":
+            e["inode"] = rng.choice([11, 12, 13, 14])
+        elif op == "inode0":
+            e["inode"] = 0
+        elif op == "type":
+            d[nm] = mem_entry(rng, rng.choice([1, 2]), nm)
+            if d[nm]["kind"] == 1 and rng.random() < 0.7: d[nm]["children"][rng.randint(0, 11)] = mem_entry(rng, 0, rng.randint(0, 11))
+            if d[nm]["kind"] == 1:
+                d[nm]["children"] = {v["name"]: v for v in d[nm]["children"].values()}
+        elif op == "remove":
+            del d[nm]
+    for _ in range(rng.choice([0, 0, 1, 2])):
+        nm = rng.randint(0, 14)
+        if nm not in d:
+            d[nm] = mem_entry(rng, rng.choice([0, 0, 1, 2]), nm); log.add("add")
+
+
+def mem_toks(d):
+    out = []
+    def walk(d, depth):
+        for nm in sorted(d):
+            e = d[nm]
+            out.append([e["kind"], depth, nm, e["targ"]] + opt(e["mt"]) + opt(e["ct"]) + [e["inode"], e["len"], e["seed"]])
+            if e["kind"] == 1: walk(e["children"], depth + 1)
+    walk(d, 1)
+    flat = [len(out)]
+    for e in out: flat += e
+    return flat
+
+
+def gen_mem(rng):
+    """-> (case line, info for the oracle)"""
+    ic, ii = rng.choice([(0, 0), (0, 0), (1, 0), (0, 1), (0, 1), (1, 1)])
+    skip = 1 if rng.random() < 0.1 else 0
+    focus = rng.random() < 0.5
+    states = [mem_state0(rng)]
+    log = set()
+    if rng.random() < 0.3:
+        s1 = mem_copy(states[0]); mem_edit(rng, s1, set(), False); states.append(s1)
+    cur = mem_copy(states[-1]); mem_edit(rng, cur, log, focus); states.append(cur)
+    n = len(states)
+    x = rng.random()
+    if n == 2: pidx = [] if x < 0.6 else [0]
+    else: pidx = [] if x < 0.3 else [1] if x < 0.45 else [0] if x < 0.55 else [1, 0] if x < 0.8 else [0, 1]
+    t = [ic, ii, skip, n]
+    for st in states: t += mem_toks(st)
+    t += [len(pidx)] + pidx
+    used = [states[i] for i in pidx] if pidx else [states[n - 2]]
+    return " ".join(map(str, t)), {"ic": ic == 1, "ii": ii == 1, "skip": skip == 1, "used": used, "cur": cur, "log": log,
+                                    "single": len(used) == 1, "focus": focus}
+
+
+def mem_pairs(par, cur):
+    """(parent entry or None, current entry) for every non-directory entry of `cur`, following directories
+    that are directories on both sides (otherwise nothing below is known to the parent)"""
+    out = []
+    for nm, e in cur.items():
+        pe = par.get(nm) if par is not None else None
+        if e["kind"] == 1:
+            out += mem_pairs(pe["children"] if pe is not None and pe["kind"] == 1 else None, e["children"])
+        else:
+            out.append((pe, e))
+    return out
+
+
+def mem_core_match(info, p, c):
+    ty = p["kind"] == c["kind"] and (p["kind"] != 2 or p["targ"] == c["targ"])
+    ct = info["ic"] or p["ct"] is None or c["ct"] is None or p["ct"] == c["ct"]
+    size = (p["len"] == c["len"]) if p["kind"] == 0 else True
+    return ty and size and p["mt"] == c["mt"] and ct
+
+
+def eval_mem(line, info, out):
+    viol, mism, cls = [], [], set()
+    if not out.startswith("ok "):
+        return viol, ["mem harness: " + out[:300]], {"harness_error"}
+    d = parse_kv(out)
+    cls.add("opts_ic%d_ii%d" % (info["ic"], info["ii"]))
+    cls.add("parents_%d" % len(info["used"]))
+    for op in info["log"]: cls.add("edit:" + op)
+    premise = True
+    for par in info["used"]:
+        for pe, c in mem_pairs(par, info["cur"]):
+            if pe is not None and c["kind"] == 0 and pe["kind"] == 0 and mem_core_match(info, pe, c) \
+               and (pe["len"], pe["seed"]) != (c["len"], c["seed"]) and c["len"] > 0:
+                premise = False
+    nfiles = len(mem_pairs(None, info["cur"]))
+    if not premise:
+        cls.add("outside_premise")
+        cls.add("outside_premise:tree_" + ("equal" if d["tree_equal"] == "1" else "differs"))
+        return viol, mism, cls
+    if d["tree_equal"] != "1":
+        viol.append(("backup with parent(s) produces a different tree than the forced full backup of the same source (in-memory source)", out))
+    if d["dump"] != "same":
+        viol.append(("a file of the parent-based snapshot does not have the bytes of the source (in-memory source)", out))
+    if int(d["f_new"]) != nfiles:
+        mism.append("forced backup did not read every file (files_new %s of %d)" % (d["f_new"], nfiles))
+    got = (int(d["unmod"]), int(d["changed"]), int(d["new"]))
+    if sum(got) != nfiles: mism.append("summary counters do not add up: " + out[:200])
+    if info["single"]:
+        exp = [0, 0, 0]
+        for pe, c in mem_pairs(info["used"][0], info["cur"]):
+            if pe is None: exp[2] += 1
+            elif mem_core_match(info, pe, c) and (not info["ii"] or pe["inode"] == 0 or c["inode"] == 0 or pe["inode"] == c["inode"]): exp[0] += 1
+            else: exp[1] += 1
+        if got != tuple(exp):
+            mism.append("files unmodified/changed/new %s, expected from the source metadata %s: %s" % (got, tuple(exp), out[:200]))
+    if got[0] > 0 and (got[1] > 0 or got[2] > 0): cls.add("reused_and_reread_mixed")
+    if info["skip"] and d["saved2"] == "0": cls.add("skip_if_unchanged:skipped")
+    if not info["skip"] and d["saved2"] != "1": mism.append("snapshot not written without skip_if_unchanged")
+    return viol, mism, cls
+
+
 # ------------------------------------------------------------------ the check
 
 def run(ctx):
@@ -357,7 +559,7 @@ def run(ctx):
         "premise of parent_equals_full (`visible`): an entry with equal type, size, mtime and (unless ignore_ctime) ctime (None on either side counts as equal, as in the code) has equal content; source leaves carry no content of their own and are not directories; directory entries of parent sources are directories",
         "names are numbers ordered like the byte strings (fixed-width decimal names in the harness); timestamps are whole seconds in the hook cases",
         "Tree::from_backend does not verify hash(bytes) = id (hook trees use chosen ids); serde round-trip of Node is outside the model",
-        "ctime cannot be set on disk: ctime clauses are exercised at the hook level; end to end only ignore_ctime + (same size, restored mtime) edits fall outside the premise and are classified, not flagged",
+        "ctime cannot be set on disk: on disk a same-size rewrite with restored mtime bumps ctime (inside the premise unless ignore_ctime: then classified, not flagged); freely chosen ctime/mtime/inode values (whole seconds, None, equal ctime with other bytes) go through the public Repository::archive with an in-memory ReadSource",
         "the pariter pipeline preserves order (ordered parallel_map); worker scheduling is outside the model",
     ]
     try:
@@ -380,10 +582,15 @@ def run(ctx):
         lines.append(gen_case(rng))
     # regression cases first: unchanged sub-directory whose tree pack was removed from the parent (finding 1 in NOTES.md)
     e2e_lines = ["108 0 2 0", "122 1 2 0", "130 0 2 0", "138 4 2 0"] + gen_e2e(rng, 1500 if ctx.thorough() else 160)
+    mem_cases = [gen_mem(rng) for _ in range(8000 if ctx.thorough() else 700)]
     if ctx.replay:
         rp = json.load(open(ctx.replay))
         w = rp["witness"]
+        mem_cases = []
         if w.get("mode") == "e2e": lines, e2e_lines = [], [w["case"]]
+        elif w.get("mode") == "mem":
+            lines, e2e_lines = [], []
+            print(run_lines(impl, [w["case"]], "mem")[0])     # the oracle needs the generator's view of the case: shown, not re-judged
         else: lines, e2e_lines = [w["case"]], []
     viol, mism, nontriv, hist, samples = [], [], set(), {}, []
     impl_out = run_lines(impl, lines) if lines else []
@@ -425,8 +632,23 @@ def run(ctx):
     if e2e_out and len(samples) < 5:
         samples.append({"e2e_case": e2e_lines[0], "result": e2e_out[0]})
 
+    # ---- in-memory sources through the public Repository::archive (metadata chosen freely)
+    mem_viol, mem_mism, mem_hist, mem_nontriv = [], [], {}, set()
+    mem_lines = [c[0] for c in mem_cases]
+    mem_out = run_lines(impl, mem_lines, "mem", maxchunks=6, per=60) if mem_lines else []
+    for (ln, info), out in zip(mem_cases, mem_out):
+        v, m, cls = eval_mem(ln, info, out)
+        for what, detail in v: mem_viol.append((what, ln, detail, "mem"))
+        for x in m: mem_mism.append((ln, x))
+        for k in cls: mem_hist[k] = mem_hist.get(k, 0) + 1
+        if "reused_and_reread_mixed" in cls: mem_nontriv.add(ln)
+    e2e_viol += mem_viol
+    e2e_mism += mem_mism
+    e2e_nontriv |= mem_nontriv
+
     cov.update({
-        "evaluations": len(lines) + len(e2e_lines),
+        "mem_source_cases": len(mem_lines), "distribution_mem": mem_hist,
+        "evaluations": len(lines) + len(e2e_lines) + len(mem_lines),
         "distinct_nontrivial": len(nontriv) + len(e2e_nontriv),
         "rule": "hook case = 1-3 parent root trees (second/third = edited copies; missing, repeated, no parents), trees up to depth 3 over 14 names "
                 "(sorted; styles: unsorted, duplicate names, dir entries without subtree; shared, missing and undecodable subtrees), current entries derived "
@@ -435,10 +657,10 @@ def run(ctx):
                 "options ignore_ctime x ignore_inode; non-trivial = at least one entry reused and one not; e2e case = seeded tree on disk, backup, 0-6 edits "
                 "(content with/without size change, with new or restored mtime, touch, rename, file<->dir<->symlink, retarget, add, remove), backup with parent options "
                 "(latest, explicit, two parents in both orders, ignore_ctime, ignore_inode, skip_if_unchanged), restore, forced backup, restore; 20% with a data pack of the "
-                "parent removed + repair_index, 15% with the tree pack of a sub-directory removed + repair_index; non-trivial = some files reused and some re-read, inside the premise; distinct by case text",
+                "parent removed + repair_index, 15% with the tree pack of a sub-directory removed + repair_index; half of the files start with whole-second mtimes; edits incl. same size + mtime moved within the same second (whole<->sub-second) and same size + mtime restored (only ctime tells; inside the premise unless ctime is ignored) for every option variant; mem case = 2-3 states of an in-memory ReadSource (depth <= 3, 12 names, mtime/ctime from {None, whole second, +1ns, +0.4s, +0.999999999s, next second, far}, inode from {0,11,12,13}), earlier states backed up with force, the last with ignore_ctime x ignore_inode x skip_if_unchanged and latest / explicit / two explicit parents, then forced; edits: size, same size with mtime / ctime changed by seconds or within the second, nothing but bytes (outside), ctime dropped (outside), touch, ctime only, inode, type, add, remove; every file dumped and compared; non-trivial = some files reused and some re-read, inside the premise; distinct by case text",
         "samples": samples, "distribution": {"hook_results": hist, "e2e": e2e_hist},
         "hook_events_compared": nev,
-        "traces_validated_against_impl": len(lines) + len(e2e_lines),
+        "traces_validated_against_impl": len(lines) + len(e2e_lines) + len(mem_lines),
         "e2e_state_pairs": len(e2e_lines),
         "disagreements_checked": len(mism) + len(viol) + len(e2e_viol) + len(e2e_mism),
         "model_impl_mismatches": len(mism), "e2e_expectation_mismatches": len(e2e_mism),
@@ -449,7 +671,7 @@ def run(ctx):
         if what in seen: continue
         seen.add(what)
         ctx.violation(what, {"case": ln, "mode": mode, "detail": detail,
-                             "how_to_replay": "echo '<case>' > f; <target>/debug/c11 f %s   (formats: harness/src/bin/c11.rs); ./check C11 --replay <this file>" % ("e2e" if mode == "e2e" else "")},
+                             "how_to_replay": "echo '<case>' > f; <target>/debug/c11 f %s   (formats: harness/src/bin/c11.rs); ./check C11 --replay <this file>" % (mode if mode in ("e2e", "mem") else "")},
                       signature=None)
     if (mism or e2e_mism) and not (viol or e2e_viol):
         first = {"case": mism[0][0], "mode": "hook", "difference": mism[0][1]} if mism else {"case": e2e_mism[0][0], "mode": "e2e", "difference": e2e_mism[0][1]}
